@@ -116,7 +116,7 @@ def negate(e):
     return ast.UnaryOp(ast.Not(), e)
 
 
-def canon(e):
+def canon(e, sort_comm=True):
     """canonical copy of an expression: a>b -> b<a, a>=b -> b<=a, `not` pushed in, commutative comparisons sorted,
     `len(x) == 0`/`not len(x)`/`not x` left distinct (rules name the forms they accept)."""
     e = copy.deepcopy(e)
@@ -153,6 +153,11 @@ def canon(e):
                 # sum([[e for a in A] for b in B], [])  ==  [e for b in B for a in A]   (concatenation of the inner lists in order)
                 outer, inner = n.args[0], n.args[0].elt
                 return ast.ListComp(elt=inner.elt, generators=list(outer.generators) + list(inner.generators))
+            if isinstance(n.func, ast.Name) and n.func.id in ('isinstance', 'issubclass') and len(n.args) == 2 and not n.keywords and isinstance(n.args[1], ast.Tuple) \
+                    and all(isinstance(x, (ast.Name, ast.Attribute)) for x in n.args[1].elts):
+                # isinstance(x, (A, B)) == isinstance(x, (B, A))
+                if sort_comm:
+                    n.args[1] = ast.Tuple(elts=sorted(n.args[1].elts, key=U), ctx=ast.Load())
             if isinstance(n.func, ast.Name) and n.func.id == 'set' and len(n.args) == 1 and not n.keywords and isinstance(n.args[0], ast.ListComp):
                 return ast.SetComp(elt=n.args[0].elt, generators=n.args[0].generators)       # set([e for ..]) == {e for ..}
             return n
@@ -170,7 +175,7 @@ def canon(e):
                 op, a, b = n.ops[0], n.left, n.comparators[0]
                 if type(op) in _FLIP:
                     return ast.Compare(b, [_FLIP[type(op)]()], [a])
-                if isinstance(op, _COMM) and U(a) > U(b):
+                if sort_comm and isinstance(op, _COMM) and U(a) > U(b):
                     return ast.Compare(b, [op], [a])
             return n
     return ast.fix_missing_locations(T().visit(e))
